@@ -1,5 +1,8 @@
 import DriverLib.Util
 -- BEGIN-GENERATED-IMPORTS
+import DriverLib.C01
+import DriverLib.C11
+import DriverLib.C12
 import DriverLib.C13
 import DriverLib.C14
 -- END-GENERATED-IMPORTS
@@ -7,6 +10,9 @@ open Lean Drv
 
 def handlers : List (String → Json → Option R) := [
 -- BEGIN-GENERATED-HANDLERS
+  Drv.C01.handle,
+  Drv.C11.handle,
+  Drv.C12.handle,
   Drv.C13.handle,
   Drv.C14.handle
 -- END-GENERATED-HANDLERS
